@@ -1,6 +1,10 @@
 //! Mutex-based sink for thread-safe aggregation
 
+#[cfg(not(metrique_verif_loom))]
 use std::sync::{Arc, Mutex};
+// verification builds only
+#[cfg(metrique_verif_loom)]
+use metrique_writer::core::__verif::sync::{Arc, Mutex};
 
 use metrique_core::CloseValue;
 
